@@ -1,6 +1,7 @@
 package scen
 
 import (
+	"bytes"
 	clienttypes "github.com/bianjieai/tibc-go/modules/tibc/core/02-client/types"
 	packettypes "github.com/bianjieai/tibc-go/modules/tibc/core/04-packet/types"
 	host "github.com/bianjieai/tibc-go/modules/tibc/core/24-host"
@@ -24,6 +25,9 @@ const (
 	MutAckBytes    = "ackbytes"
 	MutPort        = "port"
 	MutRelay       = "relay"
+	// MutDataEquiv rewrites packet data into bytes that a lossy normalisation (text decoding,
+	// case folding, trimming, re-encoding) could confuse with the original
+	MutDataEquiv = "dataeq"
 )
 
 // parts gives uniform access to the three provable message kinds.
@@ -134,6 +138,69 @@ func (e *Engine) Mutate(orig *Sent, kind string) *Sent {
 			}
 			pt.P.Data = append([]byte(nil), others[ch.Int(len(others))]...)
 			s.Mut += "-swap"
+		}
+	case MutDataEquiv:
+		if pt.P == nil || len(pt.P.Data) == 0 {
+			return nil
+		}
+		d := pt.P.Data
+		var hi, letters []int
+		for i, b := range d {
+			if b >= 0x80 {
+				hi = append(hi, i)
+			}
+			if (b >= 'a' && b <= 'z') || (b >= 'A' && b <= 'Z') {
+				letters = append(letters, i)
+			}
+		}
+		switch ch.Int(6) {
+		case 0: // another byte outside ASCII in place of one (same length)
+			if len(hi) == 0 {
+				return nil
+			}
+			i := hi[ch.Int(len(hi))]
+			nb := byte(0x80 | ch.Int(128))
+			if nb == d[i] {
+				nb ^= 1
+			}
+			d[i] = nb
+			s.Mut += "-hibyte"
+		case 1: // a run of bytes outside ASCII made longer
+			if len(hi) == 0 {
+				return nil
+			}
+			i := hi[ch.Int(len(hi))]
+			extra := bytes.Repeat([]byte{byte(0x80 | ch.Int(128))}, 1+ch.Int(2))
+			pt.P.Data = append(append(append([]byte(nil), d[:i]...), extra...), d[i:]...)
+			s.Mut += "-hirun"
+		case 2: // letter case
+			if len(letters) == 0 {
+				return nil
+			}
+			d[letters[ch.Int(len(letters))]] ^= 0x20
+			s.Mut += "-case"
+		case 3: // padding inside or around
+			pad := []byte{0, ' ', '\n', '\t'}[ch.Int(4)]
+			i := ch.Int(len(d) + 1)
+			pt.P.Data = append(append(append([]byte(nil), d[:i]...), pad), d[i:]...)
+			s.Mut += "-pad"
+		case 4: // two neighbouring bytes swapped
+			if len(d) < 2 {
+				return nil
+			}
+			i := ch.Int(len(d) - 1)
+			if d[i] == d[i+1] {
+				return nil
+			}
+			d[i], d[i+1] = d[i+1], d[i]
+			s.Mut += "-transpose"
+		default: // a byte outside ASCII replaced by the UTF-8 replacement character
+			if len(hi) == 0 {
+				return nil
+			}
+			i := hi[ch.Int(len(hi))]
+			pt.P.Data = append(append(append([]byte(nil), d[:i]...), 0xEF, 0xBF, 0xBD), d[i+1:]...)
+			s.Mut += "-replchar"
 		}
 	case MutSeq:
 		delta := []int64{1, -1, 2, 7}[ch.Int(4)]
